@@ -175,6 +175,7 @@ class SurfaceSubdivision(Logger):
             newMeshData.vertices.append(pC)
             half[keyify(A,B)]=C
 
+        new_edges = set()
         bary = dict()
         for iF,F in enumerate(self.mesh.faces):
             pS = sum([self.mesh.vertices[u] for u in F])/3
@@ -194,6 +195,9 @@ class SurfaceSubdivision(Logger):
                 [C, mCA, S, mBC],
             ]:
                 newMeshData.faces.append(new_face)
+                for k in range(4):
+                    new_edges.add(keyify(new_face[k], new_face[(k+1)%4]))
+        newMeshData.edges += list(new_edges) # following operations of the block rely on the edge list
         self.mesh = newMeshData
 
 @allowed_mesh_types(SurfaceMesh)
